@@ -54,7 +54,7 @@ ASSUMPTIONS = [
     "csv.writer / csv.reader, openpyxl 3.1.5 and sqlite3 are trusted: the model ends at the objects handed to them; what they do with those objects is observed by running them, never proved",
     "repr(float) is Python's (parameter fs of the model); REAL values are compared by bit pattern",
     "CPython's utf-8 / utf-16 codecs with errors='replace' are modelled and tied by correspondence only",
-    "XLSX sheet titles longer than 31 characters (shortened by the exporter) are not modelled and not generated",
+    "XLSX sheet titles longer than 31 characters (first 30 characters + a digit, in writing order) are generated and read back but not modelled",
 ]
 TRUSTED_EXTRA = [
     "csv, openpyxl, sqlite3 (writers and readers) and Python's float repr: outside the model; the readers used by this check are part of its trusted base",
@@ -531,6 +531,22 @@ def sheet_title(name):
     return re.sub(r"[\\*?:/\[\]]", "_", name)
 
 
+def expected_sheet_titles(names_in_writing_order):
+    """the documented naming rule, written down independently of the exporter: the name with the characters a sheet title
+    may not contain replaced by '_'; when that is longer than 31 characters or already the sheet of another name, its
+    first 30 characters and the smallest digit that gives an unused title -> {name: title}"""
+    out, used = {}, set()
+    for name in names_in_writing_order:
+        if name in out:
+            continue
+        t = sheet_title(name)
+        if len(t) > 31 or t in used:
+            t = next((t[:30] + str(k) for k in range(10) if t[:30] + str(k) not in used), None)
+        out[name] = t
+        used.add(t)
+    return out
+
+
 def stub_names(ctx, sc):
     """XLSX sheet title and CSV file name derived from the table / index name by the real write_commit"""
     cases = []
@@ -561,6 +577,7 @@ def stub_names(ctx, sc):
         cm.added_cells = {0: _Cell([], row_id=None)}
         ex = CommitXlsxExporter.__new__(CommitXlsxExporter)
         ex._workbook, ex._sheets, ex._long_sheet_name_translation_dictionary, ex._xlsx_file_name = _WB(), {}, {}, "x"
+        ex._sheet_commit_names = {}
         try:
             ex.write_commit(_MSE(), cm)
             impl = "ok " + cphex(ex._workbook.names[0])
@@ -665,6 +682,7 @@ def stub_commits(ctx, sc):
             # XLSX
             ex = CommitXlsxExporter.__new__(CommitXlsxExporter)
             ex._workbook, ex._sheets, ex._long_sheet_name_translation_dictionary, ex._xlsx_file_name = _WB(), {}, {}, "x"
+            ex._sheet_commit_names = {}
             if second:
                 ex._sheets["stub"] = ex._workbook.sheet
             try:
@@ -1018,6 +1036,9 @@ class FileCheck:
     def check_csv(self):
         ctx = self.ctx
         names = self.ex.csv_exporter.csv_file_names
+        if len(set(names.values())) != len(names):
+            self.fail("record-structure", "two entries share one CSV file", "csv", entry="*",
+                      written=sorted(os.path.basename(v) for v in names.values()), expected="one file per entry")
         for mse, commits, recs in self.all_records():
             if not recs and mse.name not in names:
                 continue
@@ -1035,10 +1056,16 @@ class FileCheck:
     # ---- XLSX
     def check_xlsx(self):
         wb = openpyxl.load_workbook(os.path.join(self.outdir, "out.xlsx"))
+        titles = expected_sheet_titles([mse.name for mse, commits, _ in self.all_records() if any(c.updated for c in commits)])
         for mse, commits, recs in self.all_records():
             if not any(c.updated for c in commits):
                 continue
-            ws = wb[sheet_title(mse.name)]
+            title = titles.get(mse.name)
+            if title not in wb.sheetnames:
+                self.fail("record-structure", "an entry has no XLSX sheet of its own", "xlsx", entry=mse.name,
+                          written=sorted(wb.sheetnames), expected=title)
+                continue
+            ws = wb[title]
             rows = [list(r) for r in ws.iter_rows(values_only=True)]
             data = [r for r in rows[1:] if any(x is not None for x in r)]   # index sheets get an empty row per later commit
             rt = cached_roundtrip("xlsx", lambda objs: xlsx_roundtrip(objs, self.sc.path("rt.xlsx")))
@@ -1366,6 +1393,14 @@ def files(ctx, sc):
         con.execute('INSERT INTO "a/b" VALUES (\'slash\')')
         con.execute('CREATE TABLE "what?[1]" ("é")')
         con.execute('INSERT INTO "what?[1]" VALUES (x\'00\')')
+        # names that the sheet-title / file-name substitutions make equal
+        for nm, val in (("a_b", 11), ("a b", 12)):
+            con.execute(f'CREATE TABLE "{nm}" (v)')
+            con.execute(f'INSERT INTO "{nm}" VALUES ({val})')
+        # names longer than a sheet title may be (31), sharing their first 30 and 31 characters
+        for sfx, val in (("_one", 1), ("_two", 2), ("x", 3)):
+            con.execute(f'CREATE TABLE {"L" * 31}{sfx} (v)')
+            con.execute(f'INSERT INTO {"L" * 31}{sfx} VALUES ({val})')
         con.close()
         n0 = len(ctx.oracle_failures)
         try:
